@@ -108,6 +108,9 @@ def check(ctx):
         _store_rule(ctx, ctx.rule("S1", "[shared with C02/C03] key and certificate are installed on every successful attempt, after validation"), _rtr(prog))
     from . import c10 as _c10
     ctx.shared("C10", _c10.order_rules)
+    ctx.shared("C10", _c10.call_rules)              # a failing hook fails the step: it aborts the sequence and its error reaches the caller
+    from . import c02 as _c02
+    ctx.shared("C02", lambda c_: _c02.open_rule(c_, c_.rule("R1", "[shared with C02] a rewritten key / certificate file holds the new content only (opened truncating, never appended)")))
     from . import c03 as _c03
     ctx.shared("C03", _c03.no_discarded_results)     # "failure whenever any step failed": no step's error is dropped unexamined
     cargo = tomllib.load(open(os.path.join(ctx.repo, "Cargo.toml"), "rb"))
